@@ -8,18 +8,22 @@ RULE = ('Hypothesis-generated World histories weighted towards delete_entity(e) 
         'the same id (remove its components one by one, delete again, delete immediately, add, replace) and 1-3 '
         'process() calls, with a lowest-priority sentinel processor observing the world at the moment '
         'processors start; deferred deletion of an id that owns nothing is the only legitimate source of a '
-        'failing process(). Oracle: reference model of attached/pending. Non-trivial = a deferred delete with '
+        'failing process(); handler components can be armed so that their on_remove, when it runs inside '
+        'process(), deletes (deferred or immediately) or strips another entity. Oracle: reference model of attached/pending. Non-trivial = a deferred delete with '
         '>= 1 intervening operation on the same id before process, or a legitimately failed frame followed by '
         'further frames. Distinct = sha1 of canonical JSON.')
 ASSUMPTIONS = [
-    'no faults are injected into callbacks (the quantifier is over histories)',
+    'no exceptions are injected into callbacks; callbacks may issue further World operations (only from '
+    'on_remove running inside process())',
+    'a deferred delete issued by a callback while a frame applies deletions may take effect in that frame or '
+    'in the next one (either is accepted, the entity must not exist in between)',
     'an id whose row vanished while its deletion was pending is not re-populated before the next process()',
     'process() runs under a deterministic budget of 200000 executed lines inside desper (hang detection)',
     'after a legitimately failed frame (k ids that owned nothing were deferred-deleted) one of the next k frames must succeed with all '
     'pending deletions applied',
 ]
 WEIGHTS = {'create': 6, 'add': 5, 'remove': 6, 'delete': 7, 'delete_now': 3, 'process': 6, 'clear': 1,
-           'toggle': 1, 'bad_delete': 1}
+           'toggle': 1, 'bad_delete': 1, 'arm': 2}
 FINDINGS = {}
 
 
@@ -35,5 +39,6 @@ def run_case(case):
         v.info = worldops.info_from(run, False)
         raise
     f = run.flags
-    nontrivial = (f['op_on_pending_id'] and f['process']) or f['recovered_after_failed_frame']
+    nontrivial = ((f['op_on_pending_id'] and f['process']) or f['recovered_after_failed_frame']
+                  or f['reaction_in_process'])
     return worldops.info_from(run, nontrivial)
